@@ -178,6 +178,9 @@ impl Model {
                 }
                 if t[0] == "e" {
                     match parse_e_target(&t[1]) {
+                        // a request naming itself: a target that cannot be meant (ignored, or the
+                        // request refused)
+                        Some(id) if id == e.id => malformed = true,
                         Some(id) => {
                             if self.retrievable.contains(&id) && self.events[&id].pk != e.pk {
                                 let _ = refusals.insert(Refusal::InvalidDelete);
@@ -230,7 +233,7 @@ impl Model {
                 if t[0] == "e" {
                     if let Some(id) = parse_e_target(&t[1]) {
                         if id == e.id {
-                            // a request naming itself: generator never produces it
+                            // a request naming itself: the target is ignored
                             continue;
                         }
                         if self.retrievable.contains(&id) {
